@@ -16,6 +16,11 @@ package clone
 // string), computes the cut positions from (skip, overhang) and pairs every
 // forward cut with the next cut if that one belongs to a backward-pointing
 // site.
+//
+// Layouts in which a forward site is followed so closely by a backward site
+// that their cuts cross (gap < 2*skip) have their own generator and
+// precondition (c10MakeCrossing, c10PreCross) and their own random streams, so
+// that the draws of the other blocks stay what they were.
 
 import (
 	"fmt"
@@ -220,6 +225,232 @@ func c10Pre(n int, circular bool, st []c10Site, e c10Enz, inside bool) bool {
 		return false
 	}
 	return true
+}
+
+// c10PreCross is the layout precondition for parts on which a forward-pointing
+// site is followed so closely by a backward-pointing site that the backward
+// site cuts BEFORE the forward site does (gap between the two sites smaller
+// than twice the skip). Such a layout is inside the property's quantifier as
+// long as occurrences do not overlap and paired cuts are two overhang lengths
+// apart: with the cuts taken in the order in which they fall on the part (on
+// the ring for a circular part), every forward cut directly followed by a
+// backward cut must be at least two overhang lengths before it, no two cuts
+// fall on the same base, and on a linear part every cut and its overhang lie
+// inside the part.
+//
+// The statement's "next backward-pointing site" can be read by site order or
+// by cut order once cuts cross. With agree, only layouts on which both readings
+// release the same stretches are admitted: the forward->backward neighbours in
+// site order whose cuts do not cross must be exactly the forward->backward
+// neighbours in cut order (so a crossing pair releases nothing and creates no
+// new pair). crossing counts the site neighbours whose cuts cross.
+func c10PreCross(n int, circular bool, st []c10Site, e c10Enz, agree bool) (ok bool, crossing int) {
+	l, k := len(e.site), len(st)
+	if n < l || k < 2 {
+		return false, 0
+	}
+	cut := func(s c10Site) int {
+		if s.fwd {
+			return s.start + l + e.skip
+		}
+		return s.start - e.skip
+	}
+	for i := 0; i < k; i++ {
+		if st[i].start < 0 || st[i].start >= n {
+			return false, 0
+		}
+		if i+1 < k && st[i+1].start-st[i].start < l {
+			return false, 0
+		}
+		if !circular {
+			c := cut(st[i])
+			if st[i].start+l > n || st[i].fwd && c+e.ovh > n || !st[i].fwd && c-e.ovh < 0 {
+				return false, 0
+			}
+		}
+	}
+	if circular && st[0].start+n-st[k-1].start < l {
+		return false, 0
+	}
+	// neighbours in site order
+	sitePairs := map[[2]int]bool{}
+	for i := 0; i < k; i++ {
+		j, wrap := i+1, 0
+		if j == k {
+			if !circular {
+				break
+			}
+			j, wrap = 0, n
+		}
+		if !st[i].fwd || st[j].fwd {
+			continue
+		}
+		if a, b := cut(st[i]), cut(st[j])+wrap; a > b {
+			crossing++
+		} else {
+			sitePairs[[2]int{i, j}] = true
+		}
+	}
+	// neighbours in cut order
+	type pc struct{ pos, idx int }
+	var cs []pc
+	for i, s := range st {
+		c := cut(s)
+		if circular {
+			c = ((c % n) + n) % n
+		}
+		cs = append(cs, pc{c, i})
+	}
+	sort.Slice(cs, func(i, j int) bool { return cs[i].pos < cs[j].pos })
+	cutPairs := 0
+	for i := 0; i < k; i++ {
+		j, wrap := i+1, 0
+		if j == k {
+			if !circular {
+				break
+			}
+			j, wrap = 0, n
+		}
+		d := cs[j].pos + wrap - cs[i].pos
+		if d == 0 {
+			return false, 0
+		}
+		if st[cs[i].idx].fwd && !st[cs[j].idx].fwd {
+			if d < 2*e.ovh {
+				return false, 0
+			}
+			if agree && !sitePairs[[2]int{cs[i].idx, cs[j].idx}] {
+				return false, 0
+			}
+			cutPairs++
+		}
+	}
+	if agree && cutPairs != len(sitePairs) {
+		return false, 0
+	}
+	return true, crossing
+}
+
+// c10MakeCrossing plants k >= 2 sites of which at least one forward->backward
+// neighbour pair is so close that its cuts cross, and returns a case inside
+// c10PreCross(agree), or ok=false when the draws did not fit.
+func c10MakeCrossing(rng *rand.Rand, e c10Enz, n, k int, circular, agree bool) (c10Case, bool) {
+	l := len(e.site)
+	foot := e.skip + e.ovh
+	if e.skip == 0 || k < 2 {
+		return c10Case{}, false // the cuts of non-overlapping sites cannot cross
+	}
+	for attempt := 0; attempt < 200; attempt++ {
+		var st []c10Site
+		x := rng.Intn(k - 1) // neighbours x, x+1 are the (first) crossing pair
+		pos := 0
+		for i := 0; i < k; i++ {
+			fwd := rng.Intn(2) == 0
+			if i == x {
+				fwd = true
+			} else if i == x+1 {
+				fwd = false
+			}
+			st = append(st, c10Site{pos, fwd})
+			var g int
+			switch {
+			case i == x:
+				g = rng.Intn(2 * e.skip) // 0 .. 2*skip-1: the cuts cross by 2*skip-g bases
+			case rng.Intn(2) == 0:
+				g = rng.Intn(2*foot + 6)
+			default:
+				g = rng.Intn(2*foot + 60)
+			}
+			pos += l + g
+		}
+		span := st[k-1].start + l - st[0].start
+		if span > n {
+			continue
+		}
+		d := rng.Intn(n)
+		if !circular {
+			d = rng.Intn(n - span + 1)
+			switch rng.Intn(6) {
+			case 0:
+				d = rng.Intn(c10Min(n-span, foot+2) + 1)
+			case 1:
+				d = n - span - rng.Intn(c10Min(n-span, foot+2)+1)
+			}
+		}
+		for i := range st {
+			st[i].start = (st[i].start + d) % n
+		}
+		sort.Slice(st, func(i, j int) bool { return st[i].start < st[j].start })
+		if ok, crossing := c10PreCross(n, circular, st, e, agree); !ok || crossing == 0 {
+			continue
+		}
+		rc := c10RC(e.site)
+		for try := 0; try < 40; try++ {
+			b := c10Background(rng, n, e.site)
+			var wantF, wantR []int
+			for _, s := range st {
+				w := e.site
+				if !s.fwd {
+					w = rc
+				}
+				for i := 0; i < l; i++ {
+					b[(s.start+i)%n] = w[i]
+				}
+				if s.fwd {
+					wantF = append(wantF, s.start)
+				} else {
+					wantR = append(wantR, s.start)
+				}
+			}
+			seq := string(b)
+			if c10IntsEqual(c10Occ(seq, circular, e.site), wantF) && c10IntsEqual(c10Occ(seq, circular, rc), wantR) {
+				return c10Case{e, seq, circular, st}, true
+			}
+		}
+	}
+	return c10Case{}, false
+}
+
+// c10CrossingStraddles: does the origin of the plasmid stored from base r on
+// fall strictly inside the footprint (first base of the forward site up to the
+// last base of the backward site) of a neighbour pair whose cuts cross?
+func c10CrossingStraddles(c c10Case, r int) bool {
+	l, k, n := len(c.enz.site), len(c.sites), len(c.seq)
+	for i := 0; i < k; i++ {
+		j, wrap := i+1, 0
+		if j == k {
+			j, wrap = 0, n
+		}
+		if !c.sites[i].fwd || c.sites[j].fwd || c.sites[i].start+l+c.enz.skip <= c.sites[j].start+wrap-c.enz.skip {
+			continue
+		}
+		lo, hi := c.sites[i].start, c.sites[j].start+wrap+l // footprint [lo, hi)
+		if lo < r && r < hi || lo < r+n && r+n < hi {
+			return true
+		}
+	}
+	return false
+}
+
+// c10SitePairs is the second, site-order reading of the statement, used as a
+// self-check on crossing layouts: the number of forward sites whose next site
+// points backward and cuts after them.
+func c10SitePairs(c c10Case) int {
+	l, k, n := len(c.enz.site), len(c.sites), len(c.seq)
+	p := 0
+	for i := 0; i < k; i++ {
+		j, wrap := i+1, 0
+		if j == k {
+			if !c.circular || k < 2 {
+				break
+			}
+			j, wrap = 0, n
+		}
+		if c.sites[i].fwd && !c.sites[j].fwd && c.sites[i].start+l+c.enz.skip < c.sites[j].start-c.enz.skip+wrap {
+			p++
+		}
+	}
+	return p
 }
 
 // c10Background makes n random bases in which neither site nor its reverse
@@ -756,13 +987,15 @@ func TestVerifC10(t *testing.T) {
 	nLin := 8000
 	nCase := 1500
 	nRep, nRepRot := 600, 150
+	nCross, nCrossRot := 3000, 150
 	if thorough {
+		nCross, nCrossRot = 60000, 3000
 		nFrag, nRotSmall, nRotBig, nLin, nCase = 300000, 40000, 4000, 150000, 20000
 		nRep, nRepRot = 12000, 3000
 	}
 	var harness []string
 	{
-		v := newVerifRun("C10", c10ClauseFrag, fmt.Sprintf("sampled, %d draws: BsaI/BbsI/BtgZI through CutWithEnzymeByName, six published Type IIS geometries and random non-palindromic custom enzymes (site 4..8 bases, skip 0..14, overhang 1..6) through CutWithEnzyme; parts of 20..3000 bases, circular (stored at a random origin, sites may straddle it) and linear (every site's cut and overhang inside the part), 0..6 planted sites in either orientation at random spacing (gaps from 0 up) over a background verified to contain no other occurrence; only layouts inside the precondition (occurrences do not overlap, cuts in site order, paired cuts >= 2 overhang lengths apart); directional digestion; multiset equality (sorted lists with repetitions, never sets) with an independent modular-index digester; PLUS %d 'repeated-cassette' parts (3 of 4 circular, <= 3000 bases, same enzymes): the SAME cassette (forward site, skip, overhang, interior of 0..399 bases, overhang, skip, backward site) planted 2 or 3 times with spacers of 0..58 unrelated bases, a third of the two-copy parts with one further different cassette (4 or 6 sites in all), so that two or three IDENTICAL fragments are expected; circular ones digested at every rotation of the stored sequence (<= 120 bases) or at rotation 0 and 6 random rotations, each compared with the oracle on the rotated ring; a result that differs from the expectation only in how often a fragment occurs is classed repeated-cassette; non-trivial = at least one fragment expected", nFrag, nRep))
+		v := newVerifRun("C10", c10ClauseFrag, fmt.Sprintf("sampled, %d draws: BsaI/BbsI/BtgZI through CutWithEnzymeByName, six published Type IIS geometries and random non-palindromic custom enzymes (site 4..8 bases, skip 0..14, overhang 1..6) through CutWithEnzyme; parts of 20..3000 bases, circular (stored at a random origin, sites may straddle it) and linear (every site's cut and overhang inside the part), 0..6 planted sites in either orientation at random spacing (gaps from 0 up) over a background verified to contain no other occurrence; only layouts inside the precondition (occurrences do not overlap, cuts in site order, paired cuts >= 2 overhang lengths apart); directional digestion; multiset equality (sorted lists with repetitions, never sets) with an independent modular-index digester; PLUS %d 'repeated-cassette' parts (3 of 4 circular, <= 3000 bases, same enzymes): the SAME cassette (forward site, skip, overhang, interior of 0..399 bases, overhang, skip, backward site) planted 2 or 3 times with spacers of 0..58 unrelated bases, a third of the two-copy parts with one further different cassette (4 or 6 sites in all), so that two or three IDENTICAL fragments are expected; circular ones digested at every rotation of the stored sequence (<= 120 bases) or at rotation 0 and 6 random rotations, each compared with the oracle on the rotated ring; a result that differs from the expectation only in how often a fragment occurs is classed repeated-cassette; PLUS %d 'crossing-cuts' draws (two of three linear with every cut and overhang inside the part, one of three circular at the stored origin; 20..3000 bases, same enzymes except skip 0, 2..6 sites): at least one forward site is followed by a backward site after a gap of 0..2*skip-1 bases, so that the backward site cuts before the forward site does (the sites themselves do not overlap, no two cuts on the same base, every forward cut directly followed by a backward cut is >= 2 overhang lengths before it); only layouts on which pairing by site order and pairing by cut order release the same stretches (the crossing pair releases nothing and creates no other pair), classes crossing-cuts / crossing-cuts-panic; non-trivial = at least one fragment expected, or a crossing pair present", nFrag, nRep, nCross))
 		v.Sampled()
 		var col c10Collector
 		for i := 0; i < nFrag; i++ {
@@ -838,15 +1071,42 @@ func TestVerifC10(t *testing.T) {
 				}
 			}
 		}
+		// parts on which a forward site is followed so closely by a backward site
+		// that their cuts cross (own random stream)
+		rngX := rand.New(rand.NewSource(verifSeed() ^ 0x30c10))
+		for i := 0; i < nCross; i++ {
+			e := c10PickEnzyme(rngX, i)
+			n := c10PickLen(rngX, 20, 3000)
+			circular := i%3 == 2
+			c, ok := c10MakeCrossing(rngX, e, n, 2+rngX.Intn(5), circular, true)
+			if !ok {
+				continue
+			}
+			want := c10Oracle(c.seq, circular, e)
+			if pairs := c10SitePairs(c); pairs != len(want) {
+				harness = append(harness, fmt.Sprintf("crossing cuts: oracle gives %d fragments, by site order %d forward->backward pairs cut in order: %s", len(want), pairs, c.key()))
+				continue
+			}
+			v.Case("crossing-cuts "+c.key(), true)
+			got, perr := c10Real(c.seq, circular, e)
+			if perr != "" {
+				col.add(c10ClauseFrag, "crossing-cuts-panic", c10Input(e, c.seq, circular), "sites ["+c.layout()+"]: "+perr, len(c.seq))
+				continue
+			}
+			if !c10StrsEqual(got, want) {
+				col.add(c10ClauseFrag, "crossing-cuts", c10Input(e, c.seq, circular), "sites ["+c.layout()+"]: "+c10Diff(got, want), len(c.seq))
+			}
+		}
 		col.flush(v)
 		v.Done()
 	}
 
 	// ---- rotation independence ----
 	{
-		v := newVerifRun("C10", c10ClauseRot, fmt.Sprintf("circular parts inside the same precondition, 1..6 planted sites, same enzymes; %d sampled plasmids of 20..300 bases each digested at EVERY rotation of the stored sequence, and %d sampled plasmids of 301..3000 bases at every rotation whose origin falls within 2 bases of a site, its skip or its overhang plus 24 random rotations; and %d sampled plasmids of up to 300 bases carrying the same cassette 2 or 3 times (4 or 6 sites, identical fragments in the multiset) at every rotation; the fragment multisets (sorted lists with repetitions) of all rotations of one plasmid must be identical (a rotation fails when it differs from the most common result); non-trivial = the plasmid yields at least one fragment", nRotSmall, nRotBig, nRepRot))
+		v := newVerifRun("C10", c10ClauseRot, fmt.Sprintf("circular parts inside the same precondition, 1..6 planted sites, same enzymes; %d sampled plasmids of 20..300 bases each digested at EVERY rotation of the stored sequence, and %d sampled plasmids of 301..3000 bases at every rotation whose origin falls within 2 bases of a site, its skip or its overhang plus 24 random rotations; and %d sampled plasmids of up to 300 bases carrying the same cassette 2 or 3 times (4 or 6 sites, identical fragments in the multiset) at every rotation; and %d sampled plasmids of 120..300 bases with 2..6 sites of which at least one forward site is followed by a backward site after a gap of 0..2*skip-1 bases so that their cuts cross (sites do not overlap, no two cuts on the same base, every forward cut directly followed on the ring by a backward cut is >= 2 overhang lengths before it; the crossing forward cut may pair with a backward cut almost a full turn later) at every rotation, classes crossing-pair-straddles-origin (the stored origin lies inside the footprint of the two crossing sites) / crossing-cuts / crossing-cuts-panic; the fragment multisets (sorted lists with repetitions) of all rotations of one plasmid must be identical (a rotation fails when it differs from the most common result); non-trivial = the plasmid yields at least one fragment", nRotSmall, nRotBig, nRepRot, nCrossRot))
 		v.Sampled()
 		var col c10Collector
+		crossing := false // the plasmid being run has a forward/backward pair whose cuts cross
 		run := func(c c10Case, rots []int, idx int) {
 			e := c.enz
 			n := len(c.seq)
@@ -890,6 +1150,12 @@ func TestVerifC10(t *testing.T) {
 				}
 				s := c10Rotate(c.seq, a.r)
 				shape := c10Shape(s, true, e)
+				if crossing {
+					shape = "crossing-cuts"
+					if a.perr == "" && c10CrossingStraddles(c, a.r) {
+						shape = "crossing-pair-straddles-origin"
+					}
+				}
 				if a.perr != "" {
 					col.add(c10ClauseRot, shape+"-panic", c10Input(e, s, true), a.perr, n)
 					continue
@@ -955,6 +1221,23 @@ func TestVerifC10(t *testing.T) {
 				rots[r] = r
 			}
 			run(c, rots, nRotSmall+nRotBig+i)
+		}
+		// plasmids with a crossing forward/backward pair
+		rngX := rand.New(rand.NewSource(verifSeed() ^ 0x40c10))
+		for i := 0; i < nCrossRot; i++ {
+			e := c10PickEnzyme(rngX, i)
+			n := 120 + rngX.Intn(181)
+			c, ok := c10MakeCrossing(rngX, e, n, 2+rngX.Intn(5), true, false)
+			if !ok {
+				continue
+			}
+			rots := make([]int, n)
+			for r := range rots {
+				rots[r] = r
+			}
+			crossing = true
+			run(c, rots, nRotSmall+nRotBig+nRepRot+i)
+			crossing = false
 		}
 		col.flush(v)
 		v.Done()
